@@ -1,0 +1,17 @@
+//go:build verif
+// +build verif
+
+package miner
+
+import (
+	"time"
+
+	lpb "github.com/xuperchain/xupercore/bcs/ledger/xledger/xldgpb"
+	xctx "github.com/xuperchain/xupercore/kernel/common/xcontext"
+)
+
+// PackBlockForVerif exposes packBlock (award, timer transaction, pool prefix under the size limit, block
+// formatting) to the verification harness.
+func (t *Miner) PackBlockForVerif(ctx xctx.XContext, height int64, now time.Time, consData []byte) (*lpb.InternalBlock, error) {
+	return t.packBlock(ctx, height, now, consData)
+}
